@@ -920,3 +920,54 @@ Proof using u_range fsub_ok fmul_ok fdiv_ok.
 Qed.
 
 End RoundBandSingle.
+
+Section RoundBandSingleNoswap.
+Variable u : R.
+Hypothesis u_range : 0 <= u < 1.
+Variables fadd fsub fmul fdiv : R -> R -> R.
+Hypothesis fsub_ok : forall x y, exists d, Rabs d <= u /\ fsub x y = (x - y) * (1 + d).
+Hypothesis fmul_ok : forall x y, exists d, Rabs d <= u /\ fmul x y = x * y * (1 + d).
+Hypothesis fdiv_ok : forall x y, y <> 0 -> exists d, Rabs d <= u /\ fdiv x y = x / y * (1 + d).
+
+Notation AR := (ARm fadd fsub fmul fdiv).
+Notation gam := (gam u).
+Notation Uc := (Uc fadd fsub fmul fdiv).
+
+(* when the pivot search never left the diagonal: the classical statement for a band solver without pivoting,
+   (B + dB) x = b with |dB| <= gam (3 (m1+m2+1)) |L||U| -- the constant depends on the bandwidth only *)
+Theorem band_solve_noswap_single_backward_error_lemma (B : banded AR) (b x : list R) :
+  wfB B -> length b = bn B -> (bm1 B <= bn B)%nat -> band_solve B b = Ok x ->
+  INR (3 * (bm1 B + bm2 B + 1)) * u < 1 ->
+  exists (au al : matrix AR) (index : list nat),
+    (exists d : R, decompose_gen (A := AR) false B (compact B) (mat_new (A := AR) (bn B) (bm1 B) 0) (repeat 0%nat (bn B))
+                   = Ok (au, al, index, d)) /\
+    ((forall k, (k < bn B)%nat -> mat_at (A := AR) au (bm1 B + bm2 B + 1) k 0 <> 0) ->
+     (forall k, (k < bn B)%nat -> nth k index 0%nat = (k + 1)%nat) ->
+     exists dB : nat -> nat -> R,
+       (forall r c, (r < bn B)%nat -> (c < bn B)%nat ->
+          Rabs (dB r c) <= gam (3 * (bm1 B + bm2 B + 1))
+                           * Rsum (bn B) (fun k => Rabs (Ld (fhist (A := AR) (bn B) (bm1 B) al index (bn B) r) r k)
+                                                   * Rabs (Uc au (bm1 B + bm2 B + 1) k c))) /\
+       forall r, (r < bn B)%nat ->
+         Rsum (bn B) (fun c => (dense_entry B r c + dB r c) * nth c x 0) = nth r b 0).
+Proof using u_range fsub_ok fmul_ok fdiv_ok.
+  intros Hwf Hb Hm1 E H3.
+  destruct (band_solve_single_backward_error_lemma u u_range fadd fsub fmul fdiv fsub_ok fmul_ok fdiv_ok
+              B b x (bm1 B + bm2 B + 1) Hwf Hb Hm1 E) as (au & al & index & Hdec & Hmain).
+  exists au, al, index. split; [exact Hdec|]. intros Hpiv Hix.
+  set (mm := (bm1 B + bm2 B + 1)%nat) in *.
+  assert (HN : INR mm * u < 1).
+  { rewrite mult_INR in H3. cbn [INR] in H3. pose proof (pos_INR mm). destruct u_range as [U0 _]. nra. }
+  assert (Hc : forall r, (r < bn B)%nat -> (length (fhist (A := AR) (bn B) (bm1 B) al index (bn B) r) <= mm)%nat).
+  { intros r Hr. rewrite (fhist_noswap (A := AR) (bn B) (bm1 B) al index r Hix Hr).
+    rewrite map_length, seq_length. unfold mm. lia. }
+  destruct (Hmain Hpiv (le_n mm) Hc HN) as (_ & _ & dB & HdB & Heq).
+  exists dB. split.
+  - intros r c Hr Hc'. eapply Rle_trans; [apply (HdB r c Hr Hc')|].
+    apply Rmult_le_compat_r.
+    + apply Rsum_nonneg. intros k Hk. apply Rmult_le_pos; apply Rabs_pos.
+    + apply (gam_three u u_range mm H3).
+  - intros r Hr. pose proof (Heq r Hr) as Hq. rewrite (fperm_noswap index (bn B) (bn B) r Hix (le_n _)) in Hq. exact Hq.
+Qed.
+
+End RoundBandSingleNoswap.
